@@ -208,46 +208,12 @@ def run(ctx):
     ctx.fn(CI)
     ctx.fn(PS)
     ctx.fn(MG)
-    sym2variant = {}
+    import infixscan
     try:
-        cps = Walker(CI, max_visits=2, max_paths=300000).paths()
+        sym2variant = infixscan.symbols(CI, inline=inline.helpers(prog), ctx=ctx)
     except Exception as e:
-        cps = []
+        sym2variant = {}
         ctx.ob("R4", "check_infix", False, ctx.where(CI), "cannot enumerate: %s" % e)
-    ctx.stats["paths_walked"] += len(cps)
-    for p in cps:
-        if p.end != "return" or p.ret[0] != "tuple":
-            continue
-        v = p.ret[1][0]
-        if v[0] != "agg" or v[2] == "None":
-            continue
-        idx = strip(p.ret[1][1])
-        # characters tested equal at offsets 0,1,2 from the returned index
-        at = {}
-        for e in p.events:
-            if e["k"] == "branch" and e["cond"][0] == "binop" and e["cond"][1] == "Eq" and e["value"] is True:
-                a, b = e["cond"][2], e["cond"][3]
-                ch, other = (b, a) if b[0] == "const" and b[1] == "char" else ((a, b) if a[0] == "const" and a[1] == "char" else (None, None))
-                if ch is None:
-                    continue
-                o = strip(other)
-                if o[0] == "call" and o[1].endswith("::index"):
-                    pos = strip(o[2][1])
-                    off = None
-                    if pos == idx:
-                        off = 0
-                    elif pos[0] == "binop" and pos[1] == "Add" and strip(pos[2]) == idx and pos[3][0] == "const":
-                        off = pos[3][3]
-                    if off is not None:
-                        at[off] = chr(ch[3])
-        sym = ""
-        for off in (0, 1, 2):
-            c = at.get(off)
-            if c is None or c == " ":
-                break
-            sym += c
-        if sym:
-            sym2variant.setdefault(sym, set()).add(v[2])
     variant2functor = {}
     order_ok = {}
     try:
